@@ -75,6 +75,7 @@ RULE = ("histories of 5..30 messages mixing valid commands, every kind of invali
 def corpus():
     m = statuslib.msg_step
     return [
+        "dev " + "|".join(["t:p-330", m([b"*TST?"]), m([b"SYST:ERR:COUN?;*ESR?"]), m([b"*TST?;*TST?;:SYST:ERR:ALL?"]), "t:c77:62726f6b656e", m([b"*ESR?;*TST?;*ESR?"]), "t:N", m([b"*TST?;:SYST:ERR:COUN?"])]),
         "dev " + "|".join([m([b"SYST:ERR?;:SYST:ERR:COUN?;:SYST:ERR:ALL?"]), m([b"*ERR -100;:SYST:ERR?"]), m([b"syst:err:next?"]), m([b"SYST:ERR?"])]),
         "dev " + "|".join([m([b"*ERR 1"]), m([b"*ERR -222"]), m([b"*ERR -410"]), m([b"SYST:ERR:COUN?"]), m([b"*ESR?;*ESR?"]), m([b"SYST:ERR:ALL?;COUN?"])]),
         "dev " + "|".join([m([b"SYST:ERR?;:FOO;:SYST:ERR?"]), m([b"SYST:ERR:COUN?;*ESR?"]), m([b"SYST:ERR?;:SYST:ERR?"])]),
